@@ -12,7 +12,9 @@
 //	    ExportedFunction in both calling forms; Go calling the re-exported host import directly; the constant
 //	    form again below d recursive guest frames, d swept across the depths where the native stack must grow)
 //	x value rotations (every position sees every boundary value of its type, plus two position-tagged rotations)
-//	x both engines.
+//	x both engines,
+//
+// and a representative slice of that product again in six de-aligned module layouts (layout.go).
 //
 // Oracle = identity, step by step: what a host function observes equals what was passed to it (i32/f32 on their
 // 32 significant bits), the guest's own comparison of host results with the expected constants says "equal",
@@ -35,29 +37,73 @@ type harnessErr string
 
 func fatalf(f string, a ...any) { panic(harnessErr(fmt.Sprintf(f, a...))) }
 
-func plan(thorough bool) (planOpts, [][]*sigT, int) {
-	o := planOpts{maxP: 3, maxR: 2, maxArity: 20}
-	if thorough {
-		o = planOpts{maxP: 4, maxR: 3, maxArity: 32}
-		deepLevels, deepWindow, deepFallback = 4, 8, 2000
-	}
-	sigs := enumerateSigs(o)
-	var batches [][]*sigT
+// batchSpec = one supervised case: a group of signatures built into one guest module in one layout.
+type batchSpec struct {
+	sigs []*sigT
+	li   int
+	rots []int
+}
+
+func chunk(sigs []*sigT, li int, rots []int, out []batchSpec) []batchSpec {
 	var cur []*sigT
 	w := 0
 	for _, s := range sigs {
-		sw := len(stylesFor(s)) * (nRot + 2) * (len(s.P) + len(s.R) + 3)
+		sw := len(stylesFor(s)) * (len(rots) + 2) * (len(s.P) + len(s.R) + 3)
 		if len(cur) > 0 && w+sw > 24000 {
-			batches = append(batches, cur)
+			out = append(out, batchSpec{cur, li, rots})
 			cur, w = nil, 0
 		}
 		cur = append(cur, s)
 		w += sw
 	}
 	if len(cur) > 0 {
-		batches = append(batches, cur)
+		out = append(out, batchSpec{cur, li, rots})
 	}
-	return o, batches, len(sigs)
+	return out
+}
+
+// layoutSlice selects the signatures that are re-run in every non-plain module layout. Quick: every small
+// signature with (<=2 params, <=1 result) or (<=1 param, 2 results), the L->L cliff signatures of arity 9 and 20
+// (one register-boundary and one deep-stack representative per family) and the typed ones. Thorough: every
+// signature of the quick plan (<=3 x <=2, all cliffs up to arity 20, typed).
+func layoutSlice(thorough bool) []*sigT {
+	all := enumerateSigs(planOpts{maxP: 3, maxR: 2, maxArity: 20})
+	if thorough {
+		return all
+	}
+	var out []*sigT
+	for _, s := range all {
+		switch {
+		case s.Fam == "typed":
+		case s.Fam == "small":
+			if !((len(s.P) <= 2 && len(s.R) <= 1) || (len(s.P) <= 1 && len(s.R) == 2)) {
+				continue
+			}
+		default:
+			if string(s.P) != string(s.R) || (len(s.P) != 9 && len(s.P) != 20) {
+				continue
+			}
+		}
+		out = append(out, s)
+	}
+	return out
+}
+
+func plan(thorough bool) (planOpts, []batchSpec, int, int) {
+	o := planOpts{maxP: 3, maxR: 2, maxArity: 20}
+	if thorough {
+		o = planOpts{maxP: 4, maxR: 3, maxArity: 32}
+		deepLevels, deepWindow, deepFallback = 4, 8, 2000
+	}
+	var batches []batchSpec
+	// the module-layout dimension first (cheap), then the full product in the plain layout
+	ls := layoutSlice(thorough)
+	for li := 1; li < len(layouts); li++ {
+		batches = chunk(ls, li, layoutRots, batches)
+	}
+	sigs := enumerateSigs(o)
+	batches = chunk(sigs, 0, allRots, batches)
+	return o, batches, len(sigs), len(ls)
 }
 
 // childDeadline is the parent's budget deadline (fw.Supervise only polls Stop when it (re)starts a worker, so
@@ -69,7 +115,7 @@ var childDeadline = func() time.Time {
 	return time.Time{}
 }()
 
-func runCase(batches [][]*sigT, i int) (out string) {
+func runCase(batches []batchSpec, i int) (out string) {
 	if !childDeadline.IsZero() && time.Now().After(childDeadline) {
 		return "S"
 	}
@@ -83,13 +129,21 @@ func runCase(batches [][]*sigT, i int) (out string) {
 		}
 	}()
 	r := &runner{res: newResult()}
-	b := newBatch(batches[i])
+	b := newBatch(batches[i].sigs, batches[i].li, batches[i].rots)
 	r.runBatch(b)
 	u := b.units[len(b.units)/2]
-	r.res.Sample = map[string]any{"batch": i, "signature": u.sig.String(), "family": u.sig.Fam, "style": u.st.String(),
+	r.res.Sample = map[string]any{"batch": i, "signature": u.sig.String(), "family": u.sig.Fam, "style": u.st.String(), "layout": b.layout.Name,
 		"rotation": 3, "params": hexs(values(u.sig.P, 3, false)), "results": hexs(values(u.sig.R, 3, true)), "directions": allDirs}
 	j, _ := json.Marshal(r.res)
 	return "R " + string(j)
+}
+
+func layoutNames() []string {
+	o := make([]string, len(layouts))
+	for i := range layouts {
+		o[i] = layouts[i].Name
+	}
+	return o
 }
 
 func hexs(v []uint64) []string {
@@ -106,7 +160,7 @@ func main() {
 		return
 	}
 	run := fw.Start("C08", "exploration")
-	opts, batches, nsigs := plan(run.Thorough())
+	opts, batches, nsigs, nLayoutSigs := plan(run.Thorough())
 	if fw.IsChild() {
 		fw.ChildLoop(func(i int) string { return runCase(batches, i) })
 		return
@@ -119,8 +173,13 @@ func main() {
 	sampleAt := map[int]any{}
 	skipped := 0
 	famSigs := map[string]int{}
+	layoutBatches := 0
 	for _, b := range batches {
-		for _, s := range b {
+		if b.li != 0 {
+			layoutBatches++
+			continue
+		}
+		for _, s := range b.sigs {
 			f := s.Fam
 			if strings.HasPrefix(f, "cliff:") {
 				f = "cliff"
@@ -140,11 +199,11 @@ func main() {
 		func(i int, res string, crash *fw.Crash) {
 			if crash != nil {
 				desc := []string{}
-				for _, s := range batches[i] {
+				for _, s := range batches[i].sigs {
 					desc = append(desc, s.String())
 				}
 				run.Violation("process-"+crash.Kind, fmt.Sprintf("batch %d (%s ... %s) %s: %s", i, desc[0], desc[len(desc)-1], crash.Kind, fw.FirstLines(crash.Stderr, 4)),
-					map[string]any{"batch": i, "signatures": desc})
+					map[string]any{"batch": i, "layout": layouts[batches[i].li].Name, "signatures": desc})
 				outcomes.Inc("process " + crash.Kind)
 				return
 			}
@@ -201,10 +260,10 @@ func main() {
 			"small_signatures": fmt.Sprintf("all parameter lists of length <= %d x all result lists of length <= %d over {i32,i64,f32,f64,externref}", opts.maxP, opts.maxR),
 			"cliff_families":   fmt.Sprintf("all-i32/i64/f32/f64/externref, alternating int/float, int-mix, float-mix for arity 4..%d; 7 ints + k<=10 floats + m<=3 ints; each as params-only, results-only, both, params+2 results, 2 params+results", opts.maxArity),
 			"styles":           len(baseStyles), "typed_closures": len(typedDefs),
-			"directions": allDirs, "deep_const": map[string]int{"growth_boundaries": deepLevels, "window": deepWindow}, "rotations": nRot, "boundary_rotations": nBoundary, "engines": engines,
+			"directions": allDirs, "deep_const": map[string]int{"growth_boundaries": deepLevels, "window": deepWindow}, "module_layouts": layoutNames(), "layout_rotations": layoutRots, "layout_signatures": nLayoutSigs, "rotations": nRot, "boundary_rotations": nBoundary, "engines": engines,
 			"alphabet_sizes": map[string]int{"i32": len(alpha[tI32]), "i64": len(alpha[tI64]), "f32": len(alpha[tF32]), "f64": len(alpha[tF64]), "externref": len(alpha[tExt])},
 		},
-		Extra: map[string]any{"signatures": nsigs, "signatures_by_family": famSigs, "modules": len(batches) * len(engines) * 2, "batches": len(batches), "batches_done": done,
+		Extra: map[string]any{"signatures": nsigs, "signatures_by_family": famSigs, "modules": len(batches) * len(engines) * 2, "batches": len(batches), "layout_batches": layoutBatches, "batches_done": done,
 			"host_functions_defined": total.Units, "guest_functions_compiled": total.Funcs,
 			"top_level_calls": total.Calls, "host_function_invocations": total.HostCalls, "cases": total.Cases},
 	}, []string{
@@ -252,7 +311,13 @@ func replay(file string) {
 				panic(p)
 			}
 		}()
-		r.runBatch(newBatch([]*sigT{s}))
+		li := 0
+		for i := range layouts {
+			if layouts[i].Name == rp.Layout {
+				li = i
+			}
+		}
+		r.runBatch(newBatch([]*sigT{s}, li, allRots))
 	}()
 	if r.res.Cases == 0 {
 		fw.Fatalf("replay matched no case (style %v not defined for %s)", rp.Style, s)
